@@ -69,6 +69,25 @@ SELF_TEST = {"recorded": "2026-09-29, scratch worktree of /repo, quick tier seed
     "seeded/sv-refactor-getter-in-scope (behaviour preserving)": "green (no-write, closed shape)",
     "seeded/sv-refactor-reorder-writes (behaviour preserving)": "green"}}
 
+# ---- static route (work-package sqlsites, design/sqlsites.md): no observing entry point can reach a writing statement
+import tr_sqlsites as _sqs
+LEAN_MODULES = LEAN_MODULES + ["Properties.C16Sites"]
+THEOREMS = THEOREMS + ["EngineModel.Properties.C16Sites." + t for t in [
+    "C16_sites_sound", "C16_sites_readonly_sound", "C16_sites_observers_read_only", "C16_sites_coverage"]]
+TRANSLATORS = dict(globals().get("TRANSLATORS", {}), **{"sqlsites (engine v1/v2 impl + table classes -> Gen/SqlSites.lean)": _sqs.regenerate})
+ASSUMPTIONS = ASSUMPTIONS + [
+    "static route: the AST -> skeleton mapping of tools/tr_sqlsites.py is trusted (statement sites classified read / write "
+    "by the leading SQL keyword of the first string literal, SELECT / PRAGMA = read; calls resolved transitively through "
+    "mangled names; the schema validators are summarised as read*); the static entry points that take a directory "
+    "(database_exists, load_database, ...) are not on this route (directory model + tie)",
+]
+MANIFEST = dict(MANIFEST, text=MANIFEST["text"] + " Static route (C16_sites_observers_read_only, C16_sites_sound): the "
+                "skeleton of EVERY observing entry point (getters, listings, lookups, snapshot, verify of the impl classes of "
+                "both generations; get* / find* / *_ids / exists / all / after / last of the 2.x table classes), calls resolved "
+                "transitively, is regenerated from clang's typed AST on every run; none can reach a writing SQL statement "
+                "site (`decide`), and a skeleton without one only has traces that leave the committed database unchanged "
+                "under every fault plan (proved against Spec/Txn.lean).")
+
 LETTER = {"r": "read", "w": "write", "b": "begin", "c": "commit", "k": "rollback"}
 
 
